@@ -445,7 +445,9 @@ fn used_imports<'a, 'b: 'a>(
                     .find(|&t| t == &referenced_import.type_name && k != &data.crate_name)
                     .map(|t| (k, t))
             })
-            .next()
+            // `all_types` is a hash map: take the alphabetically first candidate crate
+            // so that the choice does not depend on the hash seed.
+            .min_by(|(a, _), (b, _)| a.cmp(b))
         {
             warn!("Warning: Using {crate_name} as module for {ty} which is not in referenced crate {}", referenced_import.base_crate);
             used.entry(crate_name)
